@@ -161,8 +161,14 @@ let parse_os (toks : string list) : oscase =
     else if String.length t >= 4 && String.sub t 0 4 = "ver=" then ver := optn (after 4)
     else if String.length t >= 3 && String.sub t 0 3 = "pb=" then pb := optn (after 3)
     else if String.length t >= 3 && String.sub t 0 3 = "vb=" then vb := optn (after 3)
-    else if String.length t >= 3 && String.sub t 0 3 = "rp=" then rp := optn (after 3)
-    else if String.length t >= 3 && (String.sub t 0 3 = "bo=" || String.sub t 0 3 = "nf=" || String.sub t 0 3 = "dm=") then ()
+    else if String.length t >= 3 && String.sub t 0 3 = "rp=" then
+      rp := (match split_on ':' (after 3) with [_; x] -> Some (n_of_hex x) | [x] -> optn x | _ -> None)
+    else if String.length t >= 3 && (String.sub t 0 3 = "bo=" || String.sub t 0 3 = "nf=" || String.sub t 0 3 = "dm="
+                                     || String.sub t 0 3 = "ps=" || String.sub t 0 3 = "fs=" || String.sub t 0 3 = "tg=") then ()
+    else if String.length t >= 4 && String.sub t 0 4 = "fmt=" then ()
+    else if String.length t >= 5 && String.sub t 0 5 = "arch=" then ()
+    else if String.length t >= 6 && String.sub t 0 6 = "pbits=" then ()
+    else if String.length t > 2 && t.[1] = ':' && (t.[0] = 'Z' || t.[0] = 'O') then ()
     else if String.length t >= 3 && String.sub t 0 3 = "xx=" then
       xx := (match after 3 with "-" -> None | "0" -> Some false | _ -> Some true)
     else if String.length t >= 5 && String.sub t 0 5 = "root=" then
@@ -203,28 +209,60 @@ let string_of_ostatus = function
   | O_UNMODELLED -> "unmodelled"
 
 let run_os (toks : string list) : string =
+  let arch = Stdlib.List.fold_left (fun a t ->
+    if String.length t > 5 && String.sub t 0 5 = "arch=" then String.sub t 5 (String.length t - 5) else a) "x86_64" toks in
+  if arch <> "x86_64" || Stdlib.List.mem "os=x" toks then "nomodel" else
   let c = parse_os toks in
   let (st, s) = sys_x86_64 c.img hl_fuel in
   let b = Buffer.create 512 in
   Buffer.add_string b (string_of_ostatus st);
   Buffer.add_string b (dump_sys s);
   let show (st, r) = Eng_walk.string_of_status st ^ (if st = Step.OK then ":" ^ hex_of_n r else "") in
+  let show_q a =
+    Buffer.add_string b (Printf.sprintf " q%s=%s/%s" (hex_of_n a)
+      (show (xlat_via c.img s MAP_KV_PHYS Step.KPHYSADDR a)) (show (xlat_via c.img s MAP_HW Step.KPHYSADDR a))) in
+  let show_p a =
+    let (st1, v) = xlat_via c.img s MAP_KPHYS_DIRECT Step.KVADDR a in
+    Buffer.add_string b (Printf.sprintf " p%s=%s" (hex_of_n a) (show (st1, v)));
+    if st1 = Step.OK then
+      Buffer.add_string b ("/" ^ show (xlat_via c.img s MAP_KV_PHYS Step.KPHYSADDR v)) in
   Stdlib.List.iter (fun q ->
     let a = n_of_hex (String.sub q 2 (String.length q - 2)) in
-    if q.[0] = 'Q' then
-      Buffer.add_string b (Printf.sprintf " q%s=%s/%s" (hex_of_n a)
-        (show (xlat_via c.img s MAP_KV_PHYS Step.KPHYSADDR a)) (show (xlat_via c.img s MAP_HW Step.KPHYSADDR a)))
-    else begin
-      let (st1, v) = xlat_via c.img s MAP_KPHYS_DIRECT Step.KVADDR a in
-      Buffer.add_string b (Printf.sprintf " p%s=%s" (hex_of_n a) (show (st1, v)));
-      if st1 = Step.OK then
-        Buffer.add_string b ("/" ^ show (xlat_via c.img s MAP_KV_PHYS Step.KPHYSADDR v))
-    end) c.queries;
+    if q.[0] = 'Q' then show_q a else show_p a) c.queries;
+  (* every range of the forward and of the reverse map: both ends, one page inside, the middle *)
+  let two = n_of_hex "2" and pg = n_of_hex "1000" and pg2 = n_of_hex "2000" in
+  Stdlib.List.iter (fun (mi, f) ->
+    match get_map s mi with
+    | None -> ()
+    | Some m ->
+      let first = ref N0 in
+      Stdlib.List.iteri (fun j r ->
+        let e = r.MapModel.endoff in
+        if j < 16 then begin
+          if r.MapModel.meth <> MapModel.coq_NONE && (match r.MapModel.meth with Zneg _ -> false | _ -> true) then begin
+            let pts = [!first; BinNat.N.add !first e] @
+                      (if BinNat.N.leb pg2 e then [BinNat.N.add !first pg; BinNat.N.sub (BinNat.N.add !first e) pg] else []) @
+                      [BinNat.N.add !first (BinNat.N.div e two)] in
+            Stdlib.List.iter f pts
+          end;
+          first := BinNat.N.add (BinNat.N.add !first e) (n_of_hex "1")
+        end) m) [ (MAP_KV_PHYS, show_q); (MAP_KPHYS_DIRECT, show_p) ];
   Buffer.contents b
+
+let run_ia32dm (vs : string) : string =
+  let v = if vs = "-" then None else Some (n_of_hex vs) in
+  let (st, s) = LayoutArchModel.ia32_linux_maps sys_new v in
+  string_of_lstatus st ^ dump_sys s
+
+let run_lindm first last off : string =
+  let (st, s) = LayoutArchModel.map_direct sys_new (n_of_hex first) (n_of_hex last) (z_of_hex off) in
+  string_of_lstatus st ^ dump_sys s
 
 let run_case (line : string) : string =
   match words line with
   | "lay" :: calls -> run_lay calls
+  | ["ia32dm"; vs] -> run_ia32dm vs
+  | ["lindm"; first; last; off] -> run_lindm first last off
   | "os" :: toks -> run_os toks
   | "scan" :: fn :: fmt :: fs :: ras :: root :: mask :: tgt :: _bo :: addr :: limit :: off :: cells ->
       run_scan fn fmt fs ras root mask tgt addr limit off cells
@@ -348,64 +386,124 @@ let spec_os (toks : string list) (out : string list) : string =
   let hint k = Stdlib.List.find_map (fun t ->
     let n = String.length k in
     if String.length t > n && String.sub t 0 n = k then Some (String.sub t n (String.length t - n)) else None) toks in
-  match hint "rp=", hint "nf=", hint "dm=" with
-  | Some rp, Some nf, Some dm ->
-    let c = parse_os (Stdlib.List.filter (fun t -> not (String.length t > 3 &&
-                (String.sub t 0 3 = "nf=" || String.sub t 0 3 = "dm="))) toks) in
-    let dm = n_of_hex dm in
-    let phys (x : coq_N) : Step.rdres =
-      match c.img.raw Step.MACHPHYSADDR x with
-      | Step.RdOk v -> Step.RdOk v
-      | _ -> (match c.img.raw Step.KPHYSADDR x with
-              | Step.RdOk v -> Step.RdOk v
-              | _ -> c.img.raw Step.KVADDR (BinNat.N.add dm x)) in
-    let mem a x = match a with Step.MACHPHYSADDR | Step.KPHYSADDR -> phys x | _ -> Step.RdErr Step.NODATA in
-    let mask = match c.img.num_sme_mask with CbOk v -> v | _ -> N0 in
-    let pf = { Step.pte_format = Step.PTE_X86_64;
-               Step.fieldsz = Stdlib.List.map n_of_hex (if nf = "6" then ["c";"9";"9";"9";"9";"9"] else ["c";"9";"9";"9";"9"]) } in
-    let m = { Step.m_kind = Step.KPgt (Step.MACHPHYSADDR, n_of_hex rp, mask, pf); Step.m_target = Step.MACHPHYSADDR } in
-    let arch a = match ArchSpec.spec_meth mem m a with Some o -> o | None -> (Step.NOTIMPL, None) in
-    let bad = ref "" in
-    let untranslatable = ref 0 in
-    Stdlib.List.iter (fun t ->
-      if !bad = "" && String.length t > 1 && (t.[0] = 'q' || t.[0] = 'p') then
-        match String.index_opt t '=' with
-        | None -> ()
-        | Some i ->
-          let a = String.sub t 1 (i - 1) and v = String.sub t (i + 1) (String.length t - i - 1) in
-          let parts = split_on '/' v in
-          if t.[0] = 'q' then begin
-            match parts with
-            | [kv; hw] ->
-              (match arch (n_of_hex a) with
-               | (Step.OK, Some (_, p)) ->
-                   let want = "0:" ^ hex_of_n p in
-                   if hw = want then begin
-                     if kv <> want then
-                       bad := Printf.sprintf "address %s: the page tables give %s, MAP_KV_PHYS gives %s" a want kv
-                   end else if String.length hw > 1 && hw.[0] = '0' then
-                     bad := Printf.sprintf "address %s: the page tables give %s, MAP_HW gives %s" a want hw
-                   else begin
-                     incr untranslatable;
-                     if String.length kv > 1 && kv.[0] = '0' && kv <> want then
-                       bad := Printf.sprintf "address %s: the page tables give %s, MAP_KV_PHYS gives %s" a want kv
-                   end
-               | (Step.NOTPRESENT, _) ->
-                   if String.length hw > 1 && hw.[0] = '0' && hw.[1] = ':' then
-                     bad := Printf.sprintf "address %s is not mapped by the page tables, MAP_HW gives %s" a hw
-               | _ -> ())
-            | _ -> bad := "malformed answer " ^ t
-          end else begin
-            match parts with
-            | [_] -> ()
-            | [_; back] ->
-                if back <> "0:" ^ a then
-                  bad := Printf.sprintf "physical address %s goes to %s through the reverse direct map and comes back as %s"
-                           a (Stdlib.List.hd parts) back
-            | _ -> bad := "malformed answer " ^ t
-          end) out;
-    if !bad = "" then "ok" else !bad
-  | _ -> "nospec"
+  let c = parse_os toks in
+  let dm = match hint "dm=" with Some d -> Some (n_of_hex d) | None -> None in
+  let phys (x : coq_N) : Step.rdres =
+    match c.img.raw Step.MACHPHYSADDR x with
+    | Step.RdOk v -> Step.RdOk v
+    | _ -> (match c.img.raw Step.KPHYSADDR x with
+            | Step.RdOk v -> Step.RdOk v
+            | r -> (match dm with Some d -> c.img.raw Step.KVADDR (BinNat.N.add d x) | None -> r)) in
+  let mem a x = match a with
+    | Step.MACHPHYSADDR | Step.KPHYSADDR -> phys x
+    | _ -> c.img.raw a x in
+  (* the architectural walk from the true root, when the image has page tables *)
+  let arch : (coq_N -> Step.outcome) option =
+    match hint "rp=", hint "fmt=", hint "fs=", hint "nf=" with
+    | Some rp, fmt, fs, nf ->
+        let (ras, raddr) = match split_on ':' rp with
+          | [a; x] -> (as_of_string a, n_of_hex x)
+          | _ -> (Step.MACHPHYSADDR, n_of_hex rp) in
+        let fmtname = match fmt with Some f -> f | None -> "x86_64" in
+        let fields = match fs, nf with
+          | Some f, _ -> Eng_walk.parse_fields f
+          | None, Some "6" -> Stdlib.List.map n_of_hex ["c";"9";"9";"9";"9";"9"]
+          | _ -> Stdlib.List.map n_of_hex ["c";"9";"9";"9";"9"] in
+        let tg = match hint "tg=" with Some t -> as_of_string t | None -> Step.MACHPHYSADDR in
+        let mask = match c.img.num_sme_mask with CbOk v -> v | _ -> N0 in
+        let pf = { Step.pte_format = Eng_walk.fmt_of_string fmtname; Step.fieldsz = fields } in
+        let m = { Step.m_kind = Step.KPgt (ras, raddr, mask, pf); Step.m_target = tg } in
+        Some (fun a -> match ArchSpec.spec_meth mem m a with Some o -> o | None -> (Step.NOTIMPL, None))
+    | _ -> None in
+  let bad = ref "" in
+  Stdlib.List.iter (fun t ->
+    if !bad = "" && String.length t > 1 && (t.[0] = 'q' || t.[0] = 'p') then
+      match String.index_opt t '=' with
+      | None -> ()
+      | Some i ->
+        let a = String.sub t 1 (i - 1) and v = String.sub t (i + 1) (String.length t - i - 1) in
+        let parts = split_on '/' v in
+        let is_ok r = String.length r > 1 && r.[0] = '0' && r.[1] = ':' in
+        if t.[0] = 'q' then begin
+          match parts, arch with
+          | [kv; hw], Some arch ->
+            (match arch (n_of_hex a) with
+             | (Step.OK, Some (_, p)) ->
+                 let want = "0:" ^ hex_of_n p in
+                 if hw = want then begin
+                   if kv <> want then
+                     bad := Printf.sprintf "address %s: the page tables give %s, MAP_KV_PHYS gives %s" a want kv
+                 end else if is_ok hw then
+                   bad := Printf.sprintf "address %s: the page tables give %s, MAP_HW gives %s" a want hw
+                 else if is_ok kv && kv <> want then
+                   bad := Printf.sprintf "address %s: the page tables give %s, MAP_KV_PHYS gives %s" a want kv
+             | (Step.NOTPRESENT, _) ->
+                 if is_ok hw then
+                   bad := Printf.sprintf "address %s is not mapped by the page tables, MAP_HW gives %s" a hw
+             | _ -> ())
+          | [_; _], None -> ()
+          | _ -> bad := "malformed answer " ^ t
+        end else begin
+          match parts with
+          | [_] -> ()
+          | [fwd; back] ->
+              if back <> "0:" ^ a then
+                bad := Printf.sprintf "physical address %s goes to %s through the reverse direct map and comes back as %s"
+                         a fwd back
+          | _ -> bad := "malformed answer " ^ t
+        end) out;
+  if !bad = "" then "ok" else !bad
+
+(* layout-level specs of the other architectures, on the implementation's dump *)
+let check_maps (maps : MapModel.map option array) (fwd : coq_N -> coq_Z) (rev : coq_N -> coq_Z)
+               (probes : coq_N list) : string =
+  let bad = ref "" in
+  Stdlib.List.iter (fun x ->
+    if !bad = "" && LayoutSpec.mdenote maps.(1) x <> fwd x then
+      bad := Printf.sprintf "KV -> PHYS sends %s to method %s, the layout says %s" (hex_of_n x)
+               (hex_of_z (LayoutSpec.mdenote maps.(1) x)) (hex_of_z (fwd x));
+    if !bad = "" && LayoutSpec.mdenote maps.(2) x <> rev x then
+      bad := Printf.sprintf "KPHYS -> DIRECT sends %s to method %s, the image of the direct region says %s" (hex_of_n x)
+               (hex_of_z (LayoutSpec.mdenote maps.(2) x)) (hex_of_z (rev x))) probes;
+  if !bad = "" then "ok" else !bad
+
+let spec_ia32dm (vs : string) (out : string list) : string =
+  match out with
+  | st :: dump ->
+    if vs = "-" then "nospec" else
+    let v = n_of_hex vs in
+    let d = n_of_hex "c0000000" in
+    if BinNat.N.leb v d then (if st = "3" then "ok" else "VMALLOC_START at or below the direct mapping was accepted") else
+    if st <> "0" then "status " ^ st else
+    let (maps, meths) = parse_dump dump in
+    let probes = Stdlib.List.concat_map around
+        [N0; d; v; BinNat.N.sub v d; n_of_hex "ffffffff"; n_of_hex "3fffffff"; maxa; BinNat.N.sub v (n_of_hex "1")] in
+    let r = check_maps maps (LayoutSpec.ia32_fwd_spec v) (LayoutSpec.ia32_rev_spec v) probes in
+    if r <> "ok" then r else
+    (match Hashtbl.find_opt meths 2, Hashtbl.find_opt meths 5 with
+     | Some ["L"; "0"; dd], Some ["L"; "2"; rd] ->
+         let dd = z_of_hex dd and rd = z_of_hex rd in
+         if LayoutSpec.lin dd d = N0 && LayoutSpec.lin rd N0 = d then "ok" else "direct / reverse direct offsets are wrong"
+     | _ -> "direct / reverse direct methods are not linear")
+  | [] -> "no output"
+
+let spec_lindm first last off (out : string list) : string =
+  match out with
+  | st :: dump ->
+    if st <> "0" then "status " ^ st else
+    let first = n_of_hex first and last = n_of_hex last and off = z_of_hex off in
+    let (maps, meths) = parse_dump dump in
+    let probes = Stdlib.List.concat_map around
+        [N0; first; last; LayoutSpec.lin off first; LayoutSpec.lin off last; maxa] in
+    let r = check_maps maps (LayoutSpec.lindm_fwd_spec first last) (LayoutSpec.lindm_rev_spec first last off) probes in
+    if r <> "ok" then r else
+    (match Hashtbl.find_opt meths 2, Hashtbl.find_opt meths 5 with
+     | Some ["L"; "0"; dd], Some ["L"; "2"; rd] ->
+         let dd = z_of_hex dd and rd = z_of_hex rd in
+         if dd = off && LayoutSpec.lin rd (LayoutSpec.lin dd first) = first && LayoutSpec.lin rd (LayoutSpec.lin dd last) = last
+         then "ok" else "direct / reverse direct are not inverse"
+     | _ -> "direct / reverse direct methods are not linear")
+  | [] -> "no output"
 
 let split_arrow (line : string) : string list list =
   (* split the words of the line at "=>" *)
@@ -422,6 +520,8 @@ let spec_case (line : string) : string =
       (match case with
        | "lay" :: calls -> spec_lay calls out
        | "os" :: toks -> spec_os toks out
+       | ["ia32dm"; vs] -> spec_ia32dm vs out
+       | ["lindm"; first; last; off] -> spec_lindm first last off out
        | "scan" :: fn :: fmt :: fs :: ras :: root :: mask :: tgt :: _bo :: addr :: limit :: off :: cells ->
            spec_scan fn fmt fs ras root mask tgt addr limit off cells out probes
        | _ -> "nospec")
